@@ -225,6 +225,13 @@ class Interp:
         if op in ("colvec", "colvecf"):
             col = [step[2][i % len(step[2])] for i in range(nr)]
             return [op, v, col, step[3], step[4]]
+        if op == "rowwrite":
+            if nr == 0:
+                return None
+            i = step[2] % (2 * nr) - nr
+            if lens[i] == 0:
+                return None
+            return ["rowwrite", v, i, step[3] % lens[i], step[4]]
         if op in ("rowread", "fillrow"):
             return [op, v, step[2] % (2 * nr + 2) - nr - 1 if nr else 0] + list(step[3:])
         if op == "cell":
@@ -343,6 +350,12 @@ class Interp:
         if op == "fill":
             x.fill(st[2])
             return ("obs", "filled")
+        if op == "rowwrite":
+            # a plain integer row index hands out a window on the array's own cells (as on a freshly built array):
+            # writing through it changes the array
+            r = x[st[2]]
+            r[st[3]] = st[4]
+            return ("obs", "row-written")
         # ---- observations
         if op == "rowread":
             return ("obs", norm(x[st[2]]))
@@ -385,7 +398,7 @@ class Interp:
             self.ctx.skips += 1
             return
         op, v = st[0], st[1]
-        writes = op in ("assign", "fill", "maskassign", "assign-from")
+        writes = op in ("assign", "fill", "maskassign", "assign-from", "rowwrite")
         if writes and self.steer and self.k1_trigger(v):
             # region of known finding K1: a write to X while a never-materialised selection over X's buffer is live
             self.ctx.redirected += 1
